@@ -338,6 +338,44 @@ func c01Definitions(c *c01ctx) {
 			}
 		}
 	}
+	// (a2) definition pairs: the same (field number, size, base type) triple is first defined for another message
+	// (an unknown number with the same low byte / +256 / an unrelated unknown / another known message) and then for
+	// the profile message: state carried from one definition to the next must not weaken validation.
+	sizes2 := []int{0, 1, 2, 3, 4, 7, 8, 16, 255}
+	idx = 0
+	for _, pr := range pairs {
+		idx++
+		if !w.Mine(idx) || !p.isKnown[pr.m] {
+			continue
+		}
+		if _, listed := p.fields[pr.m][byte(pr.f)]; !listed {
+			continue
+		}
+		if w.Expired("definition pairs") {
+			break
+		}
+		firsts := []uint16{pr.m + 256, pr.m + 512, 0xFF00 | pr.m&0xFF, 0xFE37, p.known[(int(pr.m)+7)%len(p.known)]}
+		for _, base := range fitmodel.KnownBases {
+			for _, size := range sizes2 {
+				for o := 0; o < 2; o++ {
+					for _, m1 := range firsts {
+						if m1 == pr.m || m1 == 0xFFFF {
+							continue
+						}
+						b := build(pr.m, pr.f, base, size, o == 1, 0, 0, -1, 0)
+						// insert the first definition (local 2) before the probe definition
+						d1 := fitmodel.Def{Local: 2, Big: o == 1, Global: m1, Fields: []fitmodel.FieldDef{{Num: byte(pr.f), Size: byte(size), Base: base}}}
+						nb := append([]byte{}, b[:defOff]...)
+						nb = append(nb, d1.Bytes()...)
+						nb = append(nb, b[defOff:]...)
+						fitmodel.Seal(nb)
+						c.call("Decode", nb, 0)
+						w.Fam("a2:definition-pairs", 1)
+					}
+				}
+			}
+		}
+	}
 	// the same single-field definitions as the *file_id definition itself* (DecodeHeaderAndFileID path)
 	hdr := fitmodel.HeaderBytes(fitmodel.DefaultHeader, 0)
 	for f := 0; f < 256; f++ {
